@@ -131,8 +131,11 @@ Proof. rewrite concat_app; simpl; rewrite app_nil_r; reflexivity. Qed.
 
 End Lists.
 
+Lemma fill_from_length junk n : forall start, length (fill_from junk start n) = n.
+Proof. induction n as [|n IH]; intros start; simpl; [reflexivity|]. rewrite IH; reflexivity. Qed.
+
 Lemma len_fill junk k : len (fill junk k) = Z.max 0 k.
-Proof. unfold len, fill; rewrite map_length, seq_length; lia. Qed.
+Proof. unfold len, fill; rewrite fill_from_length; lia. Qed.
 
 Lemma len_zeros k : len (zeros k) = Z.max 0 k.
 Proof. apply len_repeat. Qed.
